@@ -109,8 +109,32 @@ func run(prop, tier, repo, out, tables, variants string, seed int, f rules.PropF
 	p := model.Load(repo)
 	res.Count("packages_loaded", len(p.Pkgs))
 	res.AllFuncs = map[string]bool{}
+	res.StaticCallers = map[string]map[string]bool{}
+	var lalNames []string
 	for _, fn := range p.AllFuncs() {
 		res.AllFuncs[model.FnName(fn)] = true
+		if !model.IsLal(fn) {
+			continue
+		}
+		lalNames = append(lalNames, model.FnName(fn))
+		for _, ci := range model.AllCalls(fn) {
+			if ce := ci.Common().StaticCallee(); ce != nil && model.IsLal(ce) {
+				n := model.FnName(ce)
+				if res.StaticCallers[n] == nil {
+					res.StaticCallers[n] = map[string]bool{}
+				}
+				top := fn
+				for top.Parent() != nil {
+					top = top.Parent()
+				}
+				res.StaticCallers[n][model.FnName(top)] = true
+			}
+		}
+	}
+	if model.RecordAnchors {
+		model.RecordAllFuncs(lalNames)
+	} else {
+		res.RefFuncs = model.RefFuncs()
 	}
 	f(p, res)
 	for _, rn := range model.Renamed {
